@@ -410,6 +410,21 @@ fn api_editprobe(args: &[String]) {
         }
     };
     let r: Result<(), String> = match which {
+        "lenient-foreign-child" => (|| {
+            // POST-BUILD-VARIANT-SUPPORT does not exist in AUTOSAR_4-0-1: lenient loading keeps it and warns
+            let doc = "<?xml version=\"1.0\" encoding=\"utf-8\"?>\n<AUTOSAR xsi:schemaLocation=\"http://autosar.org/schema/r4.0 AUTOSAR_4-0-1.xsd\" xmlns=\"http://autosar.org/schema/r4.0\" xmlns:xsi=\"http://www.w3.org/2001/XMLSchema-instance\"><AR-PACKAGES><AR-PACKAGE><SHORT-NAME>p</SHORT-NAME><ELEMENTS><ECUC-MODULE-DEF><SHORT-NAME>m</SHORT-NAME><POST-BUILD-VARIANT-SUPPORT>true</POST-BUILD-VARIANT-SUPPORT></ECUC-MODULE-DEF></ELEMENTS></AR-PACKAGE></AR-PACKAGES></AUTOSAR>";
+            let model = AutosarModel::new();
+            let Ok((_, warnings)) = model.load_buffer(doc.as_bytes(), "f.arxml", false) else { return Ok(()) };
+            if warnings.is_empty() { return Ok(()); }
+            let Some(m) = model.get_element_by_path("/p/m") else { return Ok(()) };
+            let r = std::panic::catch_unwind(std::panic::AssertUnwindSafe(|| {
+                let _ = m.calc_element_insert_range(ElementName::Desc, AutosarVersion::Autosar_4_0_1);
+                let _ = m.list_valid_sub_elements();
+                let _ = m.create_sub_element(ElementName::Desc);
+                let _ = m.create_sub_element_at(ElementName::Category, 1);
+            }));
+            match r { Ok(()) => Ok(()), Err(_) => Err("after lenient loading of an AUTOSAR_4-0-1 file whose ECUC-MODULE-DEF contains POST-BUILD-VARIANT-SUPPORT (not available in 4.0.1), calc_element_insert_range / list_valid_sub_elements / create_sub_element on that element panic".to_string()) }
+        })(),
         "root-header-attributes" => (|| {
             let model = AutosarModel::new();
             let file = model.create_file("f.arxml", AutosarVersion::LATEST).map_err(|e| e.to_string())?;
